@@ -11,21 +11,31 @@ import json
 from vlib import core, corr
 from props import h3common as hc
 
-DEPENDS = ["H3Parse", "H0", "H3Total", "Base", "Tok", "C16"]
+DEPENDS = ["H3Parse", "H0", "H3Total", "Builder", "CloseFrame", "CloseEmit", "Base", "Tok", "C16"]
+GENERATORS = ["c16_close", "c13_consts"]
 TRUSTED_BASE = [
     "extraction (ExtrOcamlBasic only; Z kept inductive) + coq/extract/driver.ml for running the models",
     "correspondence harness harness/props/c16.py + h3common.py + harness/vlib/corr.py",
     "pylsqpack (QPACK) and validate_*_headers (C15) are oracles: answers recorded per call on the real run and "
     "replayed to the model; the theorems assume they only raise their documented exceptions",
     "modelled, not verified: the receive path of aioquic/h3/connection.py and h0/connection.py as Gallina functions; "
-    "logging (quic_logger) is off; closing-datagram emission by the real QuicConnection is checked on the "
-    "implementation only (no model)",
+    "logging (quic_logger) is off",
+    "closing round: coq/model/CloseFrame.v models datagrams_to_send's _close_pending branch and "
+    "_write_connection_close_frame on sizes over C13's QuicPacketBuilder model (Buffer bounds, CryptoPair = +16 bytes); "
+    "tied by correspondence (exec_closeframe) against the real QuicPacketBuilder + the real unbound "
+    "QuicConnection._write_connection_close_frame; constants and the shape of both functions are read from the source by "
+    "tools/gen/c16_close.py (fails closed); end-to-end emission by real handshaken QuicConnections is checked on the "
+    "implementation as before",
 ]
 ASSUMPTIONS = [
     "h3_handle_event_total: stated for the code with docs/C16-fix-1..3.patch applied (model flags); oracle contract: "
     "Decoder.feed_encoder only reports streams for which feed_header raised StreamBlocked earlier (they are in "
     "H3Connection._stream) and resume_header does not raise StreamBlocked for a stream just reported unblocked",
     "h0_handle_event_total: stated for the code with docs/C16-fix-4.patch applied",
+    "close_frame_emittable: builder as created by the closing round (no flight / total budget), max_datagram_size >= 1200 "
+    "(and < 2^62), connection ids <= 20 bytes, the CryptoPair can encrypt a full datagram (crypto_fits: "
+    "max_datagram_size <= 1500 for aioquic's CryptoPair), error code and frame type < 2^62, handshake confirmed (1-RTT "
+    "packet only); the reason phrase is ANY string without lone surrogates (H3 reasons are ASCII)",
 ]
 
 _CACHE = {}
@@ -471,6 +481,133 @@ def check_close_frames(ctx, limit):
     return st
 
 
+# ------------------------------------------------------------------------------------------ closing round (model tie)
+CF_PT = {0: "INITIAL", 2: "HANDSHAKE", 5: "ONE_RTT"}
+CF_CRYPTO_MAX = 1500
+_CF_CRYPTO = {}
+
+
+class _StubCrypto:
+    """size-only stand-in for CryptoPair when max_datagram_size exceeds the 1500-byte scratch buffers of _crypto.c"""
+    aead_tag_size = 16
+    key_phase = 0
+
+    def encrypt_packet(self, plain_header, plain_payload, packet_number):
+        return bytes(plain_header) + bytes(plain_payload) + bytes(16)
+
+
+def _cf_crypto(mds):
+    if mds > CF_CRYPTO_MAX:
+        return _StubCrypto()
+    if "real" not in _CF_CRYPTO:
+        from aioquic.quic.crypto import CryptoPair
+        from aioquic.quic.packet import QuicProtocolVersion
+        c = CryptoPair()
+        c.setup_initial(bytes(8), is_client=True, version=QuicProtocolVersion.VERSION_1)
+        _CF_CRYPTO["real"] = c
+    return _CF_CRYPTO["real"]
+
+
+class _NoLogger:
+    """stands for the QuicConnection in the unbound call: only self._quic_logger is read (qlog is off, C20's subject)"""
+    _quic_logger = None
+
+
+def cf_run(case):
+    """The closing round of datagrams_to_send on a real QuicPacketBuilder with the real (unbound)
+    QuicConnection._write_connection_close_frame.  -> (outcome code, datagram lengths, [(ptype, sent_bytes)], exception)"""
+    from aioquic import tls
+    from aioquic.buffer import BufferWriteError
+    from aioquic.quic.connection import QuicConnection
+    from aioquic.quic.packet import QuicPacketType, QuicProtocolVersion
+    from aioquic.quic.packet_builder import QuicPacketBuilder, QuicPacketBuilderStop
+    c = case["cfg"]
+    b = QuicPacketBuilder(host_cid=bytes(c["host"]), peer_cid=bytes(c["peer"]), version=QuicProtocolVersion.VERSION_1,
+                          is_client=bool(c["client"]), max_datagram_size=c["mds"], packet_number=c["pn"],
+                          peer_token=bytes(c["token"]))
+    crypto = _cf_crypto(c["mds"])
+    epoch = {0: tls.Epoch.INITIAL, 2: tls.Epoch.HANDSHAKE, 5: tls.Epoch.ONE_RTT}
+    try:
+        for pt in case["ptypes"]:
+            try:
+                b.start_packet(QuicPacketType(pt), crypto)
+                QuicConnection._write_connection_close_frame(_NoLogger(), builder=b, epoch=epoch[pt], error_code=case["code"],
+                                                             frame_type=case["ftype"], reason_phrase=case["reason"])
+            except QuicPacketBuilderStop:
+                pass
+        datagrams, packets = b.flush()
+    except Exception as e:  # noqa
+        from aioquic.quic.crypto import CryptoError
+        code = (2 if isinstance(e, BufferWriteError) else 3 if isinstance(e, AssertionError)
+                else 6 if isinstance(e, CryptoError) else 5 if isinstance(e, ValueError) else 9)
+        return code, [], [], e
+    return 0, [len(d) for d in datagrams], [(p.packet_type.value, p.sent_bytes) for p in packets], None
+
+
+def cf_impl(case):
+    code, d, p, _e = cf_run(case)
+    return [code, len(d)] + d + [len(p)] + [x for t in p for x in t]
+
+
+def cf_encode(case):
+    c = case["cfg"]
+    t = [int(c["client"]), c["mds"], c["peer"], c["host"], c["token"]]
+    t += [0] if c["mds"] > CF_CRYPTO_MAX else [1, CF_CRYPTO_MAX]
+    t += [c["pn"], case["code"]]
+    t += [0] if case["ftype"] is None else [1, case["ftype"]]
+    t += [len(case["ptypes"])] + list(case["ptypes"])
+    ws = [len(ch.encode("utf8")) for ch in case["reason"]]
+    return t + [len(ws)] + ws
+
+
+def cf_oracle(case):
+    """Property statement on the implementation: the closing round returns normally; when the 1-RTT packet is part of it
+    (max_datagram_size >= 1200) a closing datagram is produced, and no datagram exceeds max_datagram_size."""
+    code, d, p, e = cf_run(case)
+    if e is not None:
+        return ("closing round raises %s for a %d-character reason" % (type(e).__name__, len(case["reason"])),
+                {"exception": type(e).__name__, "site": "datagrams_to_send"})
+    if any(x > case["cfg"]["mds"] for x in d):
+        return ("closing datagram larger than max_datagram_size", {"defect": "close-datagram-size"})
+    if 5 in case["ptypes"] and not any(t == 5 for t, _s in p):
+        return ("no 1-RTT closing packet produced for a %d-character reason" % len(case["reason"]),
+                {"defect": "close-not-emitted"})
+    return None
+
+
+CF_CHARS = ["a", "\u00e9", "\u20ac", "\U0001f600"]
+
+
+def cf_gen(rng, n):
+    from aioquic.h3.connection import ErrorCode
+    codes = [int(x) for x in ErrorCode] + [0, 63, 64, 16383, 16384, 2 ** 30 - 1, 2 ** 30, 2 ** 62 - 1]
+    out = []
+    for _ in range(n):
+        mds = rng.choice([1200, 1200, 1201, 1252, 1280, 1350, 1452, 1500, 1500, 4096, 9000])
+        cfg = {"client": rng.random() < 0.5, "mds": mds, "peer": rng.choice([0, 4, 8, 8, 20]),
+               "host": rng.choice([0, 8, 8, 20]), "token": rng.choice([0, 0, 0, 16, 64, 300, 1100, 1170, 1300]),
+               "pn": rng.choice([0, 1, 255, 70000])}
+        room = mds - 16 - (3 + cfg["peer"])
+        ln = rng.choice([0, 1, 30, 63, 64, 200, room - 40, room - 27, room - 26, room - 25, room - 24, room - 18, room - 17,
+                         room - 16, room, mds, 3000, 20000]) + rng.choice([0, 0, 0, -1, 1, 2, 3])
+        ln = max(0, ln)
+        if rng.random() < 0.6:
+            reason = "x" * ln
+        else:
+            k = rng.choice([1, 2, 3])
+            reason = "".join(rng.choice(CF_CHARS[:k + 1]) for _ in range(max(0, ln // 2)))
+        out.append({"cfg": cfg, "code": rng.choice(codes), "ftype": rng.choice([None, None, None, 0, 6, 28, 16384]),
+                    "ptypes": rng.choice([[5], [5], [5], [0, 2, 5], [2, 5], [0, 5], [0], [2], [0, 2]]), "reason": reason})
+    return out
+
+
+def cf_suite(ctx):
+    return corr.Suite(ctx, "closeframe", "exec_closeframe", cf_encode, cf_impl, cf_oracle,
+                      ops=lambda c: list(c["reason"]), rebuild=lambda c, ops: dict(c, reason="".join(ops)),
+                      nontrivial=lambda c, out: len(out) > 3,
+                      opname=lambda o: "utf8-%d" % len(o.encode("utf8")))
+
+
 # ------------------------------------------------------------------------------------------ driver
 def run(ctx):
     global _H0_FIXED
@@ -498,10 +635,13 @@ def run(ctx):
     h0.run(corr.load_corpus("C16", h0.name), "corpus")
     h0.run(list(h0_exhaustive()), "exhaustive")
     h0.run(h0_gen(rng, ctx.n(3000, 30000)), "random")
+    cf = cf_suite(ctx)
+    cf.run(corr.load_corpus("C16", cf.name), "corpus")
+    cf.run(cf_gen(rng, ctx.n(2500, 40000)), "random")
     close = check_close_frames(ctx, 12 if not ctx.thorough else 60)
     early = check_early_close(ctx, long_ok=not close["known_defect"])
     cov = corr.merge_coverage(
-        [s, h0],
+        [s, h0, cf],
         "table: every frame type x declared length x available payload x FIN after valid prefixes on control / request / "
         "push streams of both roles, all single and duplicate settings, every truncation of a SETTINGS payload, MAX_PUSH_ID "
         "payloads, critical-stream rules; malformed: grammar-generated connections mutated (byte flips, deletions, "
@@ -538,6 +678,10 @@ def replay(ctx, rep):
         cr = oversized_reason() if "reason" not in case else (case["code"], case["reason"])
         e = close_emittable(int(cr[0]), cr[1])
         return {"reason_len": len(cr[1]), "exception": repr(e)}
+    if isinstance(case, dict) and "ptypes" in case:
+        cf = cf_suite(ctx)
+        d, e, g = cf.disagree(case)
+        return {"disagree": d, "impl": e, "model": g, "oracle": cf_oracle(case)}
     if "dgram" in case:
         s = suite(ctx)
         d, e, g = s.disagree(case)
